@@ -66,7 +66,7 @@ def run_rig_part(chk, args):
     def mc():
         try:
             for cfg in ["MC_addr3.cfg", "MC_ring1.cfg", "MC_ring0.cfg"] + ([] if q else ["MC_q1.cfg"]):
-                mc_out.append((cfg, vlib.tlc(SPECDIR, "MC_ServerMux", cfg, workers=6, timeout=900, keep_prints=False)))
+                mc_out.append((cfg, vlib.tlc(SPECDIR, "MC_ServerMux", cfg, workers=6, timeout=900, keep_prints=False, heap="6g")))
         except Exception as e:
             mc_out.append(("error", e))
     th = threading.Thread(target=mc)
